@@ -146,6 +146,7 @@ func viaTransportStreamKeys(keys [][]byte, pkts [][]byte) []result {
 
 func main() {
 	run := vr.New("C04", "fault_enumeration")
+	defer run.Recover()
 	freepass.MaybeReplay(run)
 	run.Rule("base packets (R2-sealed server packets, 7 body lengths x 2 keys) x every single-bit flip of every byte, every truncation length, garbage ciphertext blocks, wrong key id / re-keying, attacker-with-key re-seals with every declared length in {-2^31,-1,2^31-1} u {len-33..len+33} x both msg_key choices, every msg_id parity; through messages.DeserializeEncrypted and through transport.ReadMsg; plus structural faults of unencrypted packets. non-trivial = distinct faulted packet (differs from the base packet)")
 	run.Assume("oracle: an altered, truncated or re-keyed packet must be refused with an error, except where the reference MTProto 1.0 peer itself opens it (an alteration confined to the unauthenticated padding): then exactly the message the reference opens may be returned; a re-seal whose declared length lies inside the plaintext and whose msg_key covers exactly that range is a legitimate message (body = declared range) and may be accepted as such or refused",
